@@ -84,6 +84,44 @@ theorem host_eq_operand_leaves (fns : List FnDef) (n : Nat) (env env1 : Env) (ne
   simp only [evalExpr, bind_eq, R.bind_yields hl, R.bind_leaves hr]
   simp [R.leaves]
 
+/-! #### operators that desugar to a runtime call (`l + r` on strings: `String.append`) -/
+
+/-- Operands of a **desugared** binary operator (string `+`, construct `concat`): the left
+    operand's calls, then (only if the left ended normally) the right operand's calls — those
+    nested inside the right operand included — in the environment the left operand left behind.
+    The operator itself makes no logged call. -/
+theorem concat_operands_left_to_right (fns : List FnDef) (n : Nat) (env : Env) (l r : Expr) :
+    (evalExpr fns (n + 1) env (.concat l r)).tr
+      = (evalExpr fns n env l).tr
+        ++ (evalExpr fns n env l).after (fun p => (evalExpr fns n p.1 r).tr) := by
+  simp only [evalExpr, bind_eq, R.bind_tr]
+  congr 1
+  unfold R.after
+  cases (evalExpr fns n env l).out <;> simp
+  rename_i p
+  cases (evalExpr fns n p.1 r).out <;> simp
+  rename_i q
+  cases p.2 <;> cases q.2 <;> simp [pure_eq, R.ok, R.stuck]
+
+/-- **`l + r` on strings reads / calls its left operand before anything inside the right operand
+    runs**: when `l` yields the text `a` after the calls `t1` and `r`, started in the environment
+    `l` left, yields `b` after `t2`, the concatenation yields `a ++ b` after exactly `t1 ++ t2`. -/
+theorem concat_left_operand_first (fns : List FnDef) (n : Nat) (env env1 env2 : Env) (l r : Expr)
+    (t1 t2 : Trace) (a b : String)
+    (hl : (evalExpr fns n env l).yields t1 (env1, .str a)) (hr : (evalExpr fns n env1 r).yields t2 (env2, .str b)) :
+    (evalExpr fns (n + 1) env (.concat l r)).yields (t1 ++ t2) (env2, .str (a ++ b)) := by
+  simp only [evalExpr, bind_eq, R.bind_yields hl, R.bind_yields hr]
+  simp [pure_eq, R.ok, R.yields]
+
+/-- … and if the right operand leaves the function, the calls are the left operand's, then the
+    right operand's up to that point -/
+theorem concat_operand_leaves (fns : List FnDef) (n : Nat) (env env1 : Env) (l r : Expr)
+    (t1 t2 : Trace) (a v : Val)
+    (hl : (evalExpr fns n env l).yields t1 (env1, a)) (hr : (evalExpr fns n env1 r).leaves t2 v) :
+    (evalExpr fns (n + 1) env (.concat l r)).leaves (t1 ++ t2) v := by
+  simp only [evalExpr, bind_eq, R.bind_yields hl, R.bind_leaves hr]
+  simp [R.leaves]
+
 /-! #### f-string parts, and the `to_string` call the compiler inserts for a part of a host type -/
 
 /-- the host calls converting the value of a part makes: the type's `to_string` for a value of
@@ -575,6 +613,27 @@ theorem lowerS_fstring_implicit_call_partial (fns : List FnDef) (P : Prog) (hP :
     simp [pure_eq, R.ok]
   exact lowerE_trace_partial fns P hP (n + 2) _ env env2 c c' code value σ _ _ hl ha hev
 
+open RotoV.LowerS in
+/-- **The lowering of a desugared operator keeps the left operand first** (T2 at string `+`,
+    `Lowerer::desugared_binop`): if `l` evaluates to the text `a` after the calls `t1` and `r`,
+    in the environment `l` left, to `b` after `t2` — whatever is nested inside `r` — the
+    structured MIR of `l + r` makes exactly `t1 ++ t2` and builds `a ++ b`: a left operand that
+    is a lazy value (a bare call, a variable read) is materialised before the code of the right
+    operand runs. (Partial for the same reasons as `lowerS_trace_partial`.) -/
+theorem lowerS_concat_left_first_partial (fns : List FnDef) (P : Prog) (hP : lowerProg fns = some P) (n : Nat)
+    (l r : Expr) (env env1 env2 : Env) (c c' : Nat) (code : Code) (value : Value) (σ : Store)
+    (t1 t2 : Trace) (a b : String)
+    (hlow : lowerE (.concat l r) c = some (code, value, c')) (ha : Agree env σ)
+    (hl : (evalExpr fns n env l).yields t1 (env1, .str a)) (hr : (evalExpr fns n env1 r).yields t2 (env2, .str b)) :
+    ∃ σ1 ta tb, ExecC P σ code ta (.normal σ1) ∧ EvalV P σ1 value tb (.str (a ++ b))
+      ∧ t1 ++ t2 = ta ++ tb ∧ Agree env2 σ1 := by
+  have hp := concat_left_operand_first fns n env env1 env2 l r t1 t2 a b hl hr
+  have hev : evalExpr fns (n + 1) env (.concat l r) = ⟨t1 ++ t2, .ok (env2, .str (a ++ b))⟩ := by
+    obtain ⟨h1, h2⟩ := hp
+    cases hh : evalExpr fns (n + 1) env (.concat l r) with
+    | mk tr out => rw [hh] at h1 h2; simp at h1 h2; rw [h1, h2]
+  exact lowerE_trace_partial fns P hP (n + 1) _ env env2 c c' code value σ _ _ hlow ha hev
+
 /-- What a function body hands back: its value, or the operand of the `return` that ended it. -/
 def bodyValue : Out (Env × Val) → Option Val
   | .ok (_, v) => some v
@@ -855,6 +914,22 @@ def demoFn8 : FnDef :=
       (.last (.fstr (.expr (.var 1) (.expr (emitVar 3 0) (.expr (tokE 4 5) .nil))))))⟩
 example : (lowerFn demoFn8).isSome = true := by decide
 example : ((evalBlock [] 40 [(0, .int 4)] demoFn8.body).tr.map (·.fn)) = [8, 8, 11, 0, 9, 0, 8, 9] := by decide
+-- concat_operands_left_to_right / concat_left_operand_first: `emit_s(1, "") + emit_s(2, emit_s(3, ""))` —
+-- the left operand's call comes before the call nested in the right operand's argument (keys 1, 3, 2)
+def emitS (k : Int) (e : Expr) : Expr := .host 3 (.cons (.lit (.int k)) (.cons e .nil))
+def strE : Expr := .fstr .nil
+example : ((evalExpr [] 12 [] (.concat (emitS 1 strE) (emitS 2 (emitS 3 strE)))).tr.map (fun e => e.args.head?))
+    = [some (.int 1), some (.int 3), some (.int 2)] := by decide
+example : ∃ t a, (evalExpr [] 12 [] (emitS 1 strE)).yields t ([], .str a) := ⟨_, _, rfl, rfl⟩
+example : ∃ t a, (evalExpr [] 12 [] (emitS 2 (emitS 3 strE))).yields t ([], .str a) := ⟨_, _, rfl, rfl⟩
+-- … a variable on the left is read before the right operand assigns it: `x0 + { x0 = emit_s(1, ""); emit_s(2, "") }`
+example : ((evalExpr [] 12 [(0, .str "")] (.concat (.var 0) (.block (.stmt (.assign 0 (emitS 1 strE)) (.last (emitS 2 strE)))))).tr.map (·.fn))
+    = [3, 3] := by decide
+-- concat_operand_leaves: `emit_s(1, "") + (return emit(2, 7))`
+example : ((evalExpr [] 12 [] (.concat (emitS 1 strE) (.ret (emitI 2 7)))).tr.map (·.fn)) = [3, 0] := by decide
+example : (evalExpr [] 12 [] (.concat (emitS 1 strE) (.ret (emitI 2 7)))).out = .ret (.int 7) := by decide
+-- lowerS_concat_left_first_partial: the concatenation is in the lowering model's fragment
+example : (lowerE (.concat (emitS 1 strE) (emitS 2 (emitS 3 strE))) 0).isSome = true := by decide
 end nonvacuity
 
 end RotoV.C08
